@@ -871,6 +871,28 @@ class Interp:
                 return self.inline_call(st, self.facts.bodies[tgt.path], [tgt] + list(actual))
             if tgt.k == "fn" and tgt.path in self.facts.bodies and self.inline(tgt.path):
                 return self.inline_call(st, self.facts.bodies[tgt.path], list(actual))
+        # a constant prefix / suffix / sub-range of an array whose elements are known is the array of those elements
+        if name == "index" and len(args) == 2 and args[1].k == "struct" and "ops::Range" in (args[1].adt or ""):
+            arr = args[0]
+            n_ = 0
+            while arr is not None and arr.k == "ref" and n_ < 4:
+                n_ += 1
+                arr = arr.fields if isinstance(arr.fields, V) else None
+            if arr is not None and arr.k == "tuple" and arr.fields is not None and all(isinstance(e_, V) for e_ in arr.fields):
+                def cst(v):
+                    if v is None:
+                        return None
+                    if not (isinstance(v, V) and v.k == "int"):
+                        return "?"
+                    lo_, hi_ = self.lin_bounds(st, v.lin)
+                    return lo_ if lo_ == hi_ else "?"
+                fl = args[1].fields or {}
+                a0, a1 = cst(fl.get("start")), cst(fl.get("end"))
+                if a0 != "?" and a1 != "?":
+                    lo_ = 0 if a0 is None else a0
+                    hi_ = len(arr.fields) if a1 is None else (a1 + 1 if "Inclusive" in args[1].adt else a1)
+                    if 0 <= lo_ <= hi_ <= len(arr.fields):
+                        return [(st, V("tuple", fields=list(arr.fields[lo_:hi_])))]
         # appending a slice whose elements are known is pushing them one after the other
         if label == "Vec::extend_from_slice" and len(args) == 2:
             sl = args[1]
